@@ -6,7 +6,7 @@ import rgrun
 import vlib
 
 META = {
-    "text": "TLC evaluates, for every pattern of a capture-group family (optional, nested, named, empty-matching groups, alternation, word boundary, anchors) x every replacement template up to length 2 over {$,{,},1,2,x,-,0} plus picked longer ones (character level, so the reference parser of interpolate.rs is inside the loop) x a catalogue of line contents, the successive matches with captures (RegexSem), the template expansion per match and the replace-all of the line (Printer.tla); the predictions are replayed on rg -r, rg -o -r, --column, -w, --crlf, and -v with context (lines without a match must stay unaltered); under -U the successive multi-line matches computed by GrepModelML give the expected replaced blocks for rg -U -r.",
+    "text": "TLC evaluates, for every pattern of a capture-group family (optional, nested, named, empty-matching groups, alternation, word boundary, anchors) x every replacement template up to length 2 over {$,{,},1,2,x,-,0} plus picked longer ones (character level, so the reference parser of interpolate.rs is inside the loop) x a catalogue of line contents, the successive matches with captures (RegexSem), the template expansion per match and the replace-all of the line (Printer.tla); the predictions are replayed on rg -r, rg -o -r, --column, -w, --crlf, and -v with context (lines without a match must stay unaltered) and under -v a line that holds matches and is printed as context (-C1, --passthru) must be its replace-all; under -U the successive multi-line matches computed by GrepModelML give the expected replaced blocks for rg -U -r.",
     "note": "Patterns/templates bounded by specs/regex/MCPrinter.tla and MCGrepML.tla; symbols abstract bytes; under -U the template is <$0> (whole-match reference) over the C13 pattern family.",
     "technique": "TLA+ executable semantics of matching, capture groups and template interpolation enumerated by TLC, replayed on the rg binary",
 }
